@@ -19,7 +19,7 @@ RULE = ("explicit-state breadth-first search over tool histories: state = plotfi
         "(contents bits + on-disk layout) and checked: reference validation, taste (default + coordinates), contents = the "
         "same pure operations applied to the RefPlot; refusals (mismatched combine, nothing to add) must raise; "
         "non-trivial = states at depth >= 2")
-ASSUMPTIONS = ["controlled in-process pool, identity schedule", "field names stay unique along a history (events that would repeat a name are disabled)"]
+ASSUMPTIONS = ["controlled in-process pool, identity schedule", "combine inputs are opened once per state and the reader object is re-used by every combine of that state", "field names stay unique along a history (events that would repeat a name are disabled)"]
 CASE_TIMEOUT = 3000
 
 RECIPE = '''def recipe(field_indexes, box_array):
@@ -73,6 +73,7 @@ def cases(tier, seed):
 
 
 State = collections.namedtuple("State", "path ref hist depth")
+READERS = {}
 
 
 def layout_sig(path):
@@ -146,8 +147,15 @@ def apply_event(ev, st, workdir, k, recipes):
         same_mesh = a.ref.boxes == b.ref.boxes and a.ref.nlevels == b.ref.nlevels
         adds = [v for v in b.ref.fields if v not in a.ref.fields]
         fn = sys.modules["amr_kitchen.combine.combine"].combine
+
+        def reader(s_):
+            # ONE reader object per state, shared by every combine that state takes part in (a reader is a view of the
+            # directory: using it as an input must not change what it says)
+            if s_.path not in READERS:
+                READERS[s_.path] = PlotfileCooker(s_.path)
+            return READERS[s_.path]
         with vpool.controlled():
-            r = call(lambda: fn(PlotfileCooker(a.path), PlotfileCooker(b.path), pltout=out))
+            r = call(lambda: fn(reader(a), reader(b), pltout=out))
         if not same_mesh or not adds:
             return r, out, "refused"
         return r, out, a.ref.combine(b.ref)
@@ -194,6 +202,7 @@ def run_case(case, workdir):
         recipes[nm] = os.path.join(workdir, "recipes_" + nm, "recipe.py")
         with open(recipes[nm], "w") as f:
             f.write(src)
+    READERS.clear()
     root, sibling, from_chk = make_root(case, workdir)
     rec.exe([case["root"], "root"], nontrivial=False)
     if not check_state(rec, {"history": root.hist}, root.path, root.ref):
